@@ -70,7 +70,12 @@ class BudgetYP(YP):
 
 @contextlib.contextmanager
 def quiet_stderr():
-    """ANTLR's console listener prints to sys.stderr; capture it."""
+    """ANTLR's console listener prints to sys.stderr; capture it (not in the thread tier of C04: swapping a
+    process-global is not thread-safe)."""
+    import threading
+    if threading.active_count() > 2:
+        yield sys.stderr
+        return
     old = sys.stderr
     sys.stderr = io.StringIO()
     try:
